@@ -48,6 +48,27 @@ CHECKS = {
    technique="deterministic simulation of multi-user histories (re-registrations on shared tapes, repeated logins, two servers) with a secret-substring monitor over every byte string that entered the network or a store; Model A names the export key each login must return",
    text="Every successful login returns the registration's export key; export keys of distinct registrations (same tape, one input varied: password, user id incl. long/whitespace twins, server) pairwise differ; no 16-byte window of any export key, session key or password occurs in any message or password file in native, bincode or JSON form.",
    note="sampled histories; passwords are random >=16 bytes so the substring monitor is meaningful"),
+
+ "C12": dict(cat="exploration", ref="DESIGN.md section 3 C12",
+   technique="deterministic simulation with fault injection on every byte seam: seeded random and structure-preserving mutated encodings into 11 decoders x 3 codecs, decoded results pushed into the consuming protocol step, foreign well-formed items routed into every step, catalogue values planted in every field, oversize parameters; catch_unwind no-panic monitor + refusal oracle",
+   text="No library call may panic or hang on random bytes, mutated valid encodings (flip, rewrite, truncate, extend, delete, splice, field constants/swaps), planted invalid or extreme-valid group values, items of the wrong kind/session/suite delivered to any step, or parameter lengths 0..131072; lengths above 65535 must be refused by the call that takes them (identities, context) or by the finish step (password), never wrapped or truncated. The no-panic monitor also runs over samples of all other checks' worlds.",
+   note="sampled; panics inside the harness are harness errors (exit 2); abusive RNGs and allocation failure not injected"),
+ "C13": dict(cat="fault_enumeration", ref="DESIGN.md section 3 C13",
+   technique="crash-point enumeration in a deterministic simulation: every assignment of {none, native, bincode, JSON} reloads to the five persistence points (1024 schedules), setup reload before the k-th server op, chained permanent reloads; label-derived tapes; oracle = event log equal to the uninterrupted run",
+   text="Each party's state is saved and restored through every codec at every step boundary (incl. an unknown-user login that depends on the stored fake key, direct and externally held server keys); all later messages, results and keys must equal the uninterrupted run byte for byte.",
+   note="all 1024 schedules on 4 suites (64 sampled on the other 16) in quick, all on all 20 in thorough; base worlds seeded"),
+ "C15": dict(cat="fault_enumeration", ref="DESIGN.md section 3 C15",
+   technique="deterministic simulation with the Ksf trait as seam: SimKsf call log (count, instance, input), KSF failing at call n, KSF instance pairs at registration/login decided by Model A, same-tape registrations under two instances; real Identity and Argon2 run too",
+   text="Exactly one KSF evaluation per client finish step, of the instance the caller passed (default when absent), on an Nh-byte input equal at registration and login; equal parameters succeed, different ones give InvalidLoginError, explicit default equals absent (SimKsf, Identity, Argon2 default and non-default cost); every password-derived secret differs between two instances on identical tapes; an injected failure at call 1 surfaces as LibraryError(KsfError) without panic and a failure planned for call 2 never fires.",
+   note="fault index enumerated over n in {1,2} per finish step; pairs enumerated; worlds seeded"),
+ "C17": dict(cat="exploration", ref="DESIGN.md section 3 C17",
+   technique="deterministic simulation over the RNG seam: recorded tapes replayed equal / independent / as prefixes at every draw boundary, single-draw replacement, and a generator whose try_fill_bytes errors; values compared by role",
+   text="Equal tapes give identical logs; on independent tapes every value meant to be random differs and none coincide within a run (incl. a second setup created with the same static key); for every randomised op and draw boundary k the reproduced values grow monotonically from none (k=0) to all (k=m); the hidden fake masking key is shown to be drawn by single-draw replacement; no op may succeed with different output when the generator reports errors.",
+   note="tests tape-dependence and non-repetition, not unpredictability; sampled worlds"),
+ "C18": dict(cat="fault_enumeration", ref="DESIGN.md section 3 C18",
+   technique="deterministic simulation with the SecretKey trait as seam: SimHsm (raw-scalar and opaque-handle serialization) vs direct key on equal tapes compared event by event, seam call log, and the seam failing at the n-th fallible call for every op and every n",
+   text="Messages, password file, login state and keys are byte-identical with the key held directly or behind the external-key interface (setup compared on seed, fake key and public key), through memory, codecs and permanent reloads; only public_key/diffie_hellman/clone are called while serving; each injected failure returns exactly LibraryError(Custom(HsmErr(n))) (or the serde error carrying it), never Ok and never a panic.",
+   note="n enumerated completely per op; worlds seeded"),
 }
 
 NOT_APPLICABLE = {
